@@ -60,6 +60,7 @@ func runC08(rc *RunCtx) {
 		salt string
 	}
 	var recs []*rec
+	var clientWires [][]byte // what the clients of the recorded connections sent
 	nConn := 2 + G.Draw(8)
 	if rc.Tier == "thorough" {
 		nConn = 2 + G.Draw(38)
@@ -108,6 +109,7 @@ func runC08(rc *RunCtx) {
 			return
 		}
 		recs = append(recs, &rec{key: key, out: out, salt: string(out[:S])})
+		clientWires = append(clientWires, append([]byte(nil), cc.Wrote...))
 	}
 	if concurrent {
 		simrt.Probe("concurrent_recorded_connections")
@@ -270,6 +272,31 @@ func runC08(rc *RunCtx) {
 			x.done = true
 		})
 	}
+	// With the history on, now and then a replay of a CLIENT's handshake is refused
+	// while the reflections are being absorbed: one refusal is no business of the
+	// other.
+	if replay > 0 && len(clientWires) > 0 && G.Draw(2) == 0 {
+		for k, n := 0, 1+G.Draw(2); k < n; k++ {
+			k := k
+			wire := clientWires[G.Draw(len(clientWires))]
+			d := time.Duration(G.Draw(5)) * T / 8
+			simrt.GoNamed(fmt.Sprintf("c08-client-replay-%d", k), func() {
+				simrt.Sleep(d)
+				cc, err := srv.connect(net.IPv4(198, 18, 8, 3).To4(), 25500+k)
+				if err != nil {
+					return
+				}
+				cc.Write(wire)
+				var end flag
+				simrt.GoNamed("c08-client-replay-reader", func() { readAll(cc); end.Set() })
+				end.WaitFor(3 * T)
+				cc.CloseWrite()
+				end.Wait()
+				cc.Close()
+			})
+		}
+		simrt.Probe("client_replay_refused_while_reflections_are_absorbed")
+	}
 	simrt.Quiesce()
 	rc.Phase = "check"
 	skew := simrt.Skew()
@@ -310,6 +337,11 @@ func runC08(rc *RunCtx) {
 		if !strings.HasPrefix(st, "ERR_REPLAY") {
 			rc.Failf("reflection-not-refused:"+st, "reflection %d (%s, replay cache %d): real server output presented as client input ended %s, expected ERR_REPLAY_SERVER", i, x.desc, replay, st)
 			continue
+		}
+		// one refusal, one name: what is reported as a probe is reported closed
+		// under the same status
+		if p := r.first("probe"); p != nil && p.Status != st {
+			rc.Failf("reflection-status-inconsistent", "reflection %d (%s): reported as a probe with status %s and closed with status %s", i, x.desc, p.Status, st)
 		}
 		// handled like an invalid probe
 		if n := len(se.Wrote); n != 0 {
